@@ -239,13 +239,13 @@ SPECS["C04"] = dict(
                "FYshuffle::{reset,next}", "rand::distr::Uniform<f64|f32|usize|u64>::sample (vendored rand, rejection loop cut)", "NoHashHasher"],
     bounds={"quick": "SuperMinHash f64 m in {2,3}; SuperMinHash2 m=2 (+ first item m=3); SetSketch u16 m=2 (a=16, ln b=1/2 concrete); OptDens m in {2,3}; RevOptDens m=3; one symbolic item per step, stream length unbounded by induction",
             "thorough": "SuperMinHash f64/f32 m in {2,3,4}; SuperMinHash2 m in {2,3,4}; SetSketch u16 m=2, u32 m=2 (m=3 does not finish within 60 min: not registered); OptDens m in 1..=4; RevOptDens m in 2..=4"},
-    outside="sketch sizes above the listed ones; exact ties between DIFFERENT items (equal value on one position) are legitimately order dependent and are resolved by the code as 'later item wins' (SuperMinHash2, densified sketchers): the lemma is stated with the tie rule, set semantics then holds up to such ties (probability 2^-52..2^-64 per pair); SetSketch: the half-ulp boundary where the float subtraction 1 - log_b(x) rounds up onto an integer (there the code's two pruning tests differ by one unit) is excluded by assumption; chunking/sketch_slice for SuperMinHash*/SetSketch is a plain loop over sketch (read, not encoded); densified sketch_slice vs item-wise is c09_*_slice_*",
+    outside="sketch sizes above the listed ones; exact (level, value) ties between DIFFERENT items in SuperMinHash2 are resolved by the code as 'later item wins' (64-bit values: probability 2^-64 per pair): the lemma is stated with that tie rule; the densified sketchers keep the minimum of (r, hash), so their ties are order independent (repaired, D8); SetSketch: the half-ulp boundary where the float subtraction 1 - log_b(x) rounds up onto an integer (there the code's two pruning tests differ by one unit) is excluded by assumption; chunking/sketch_slice for SuperMinHash*/SetSketch is a plain loop over sketch (read, not encoded); densified sketch_slice vs item-wise is c09_*_slice_*",
     assumptions=["per-item generator = memoised oracle keyed by the item hash (models/rand_xoshiro); Exp1 = arbitrary finite f64 >= 0 that is a function of one draw (models/rand_distr); Lemire rejections excluded (models/rand)",
                  "representation invariants written in the harness files (SuperMinHash: b[] = histogram of clamped integer parts, a_upper = its top, lazy-reset marker < item_rank; SuperMinHash2: b[] = histogram of levels; SetSketch: lower_k integral and <= min register; densified: nb_empty counts unpopulated bins which hold the initial pair): base case = C13 harnesses, preservation = these harnesses",
                  "f64::ln stubbed by a memoised monotone NaN-free function with ln(x) > 0 iff x > 1 (SetSketch step only)",
                  "SMT lemma for ranges 2^w-1 (hi word of x*(2^w-1) is x-1), proved by cvc5 on every run"],
     not_decided=[],
-    level_text="Bounded model checking of ONE sketch call from an arbitrary state satisfying the representation invariant, differential against a reference that recomputes the item's full contribution from the same per-item stream with no pruning: the new sketch is the position-wise join (min / lexicographic min / max / smaller-r) of the old sketch and a contribution that depends on the item only, and the invariant is kept. By induction over the stream this gives order independence, duplicate insensitivity and chunking independence for streams of any length, and 'stored hashes are hashes of streamed items'.",
+    level_text="Bounded model checking of ONE sketch call from an arbitrary state satisfying the representation invariant, differential against a reference that recomputes the item's full contribution from the same per-item stream with no pruning: the new sketch is the position-wise join (min / lexicographic min / max / minimum of (r, hash)) of the old sketch and a contribution that depends on the item only, and the invariant is kept. By induction over the stream this gives order independence, duplicate insensitivity and chunking independence for streams of any length, and 'stored hashes are hashes of streamed items'.",
     level_note="Trusted: Kani/CBMC, the environment models, the invariants (checked inductive). Sizes bounded as listed; ties and one rounding boundary excluded as stated.",
     technique="Kani/CBMC bounded model checking, inductive step differential against an unpruned join reference",
 )
